@@ -84,11 +84,14 @@ def transform (copy : Bool) (w : OWorld) (arg : Circ) (plan : List Item) : OWorl
   let r := emitAll arg w plan
   if copy then copyAll r.1 r.2 else r
 
-/-- `reverse_circuit`: every gate of the argument, in reverse order -/
-def reversePlan (n : Nat) : List Item := (List.range n).reverse.map Item.keep
+/-- `reverse_circuit`: every operation of the argument, in reverse order — a `Gate` object as it is
+(`add_gate(gate)`), a `Measurement` as a new object built from the same targets list (`add_measurement(m)`);
+`meas` lists the positions holding measurements -/
+def reversePlan (n : Nat) (meas : List Nat) : List Item :=
+  (List.range n).reverse.map fun i => if meas.contains i then Item.relist i i else Item.keep i
 
-def reverseCircuit (cfg : Cfg) (w : OWorld) (arg : Circ) : OWorld × Circ :=
-  transform cfg.copyRev w arg (reversePlan arg.length)
+def reverseCircuit (cfg : Cfg) (w : OWorld) (arg : Circ) (meas : List Nat := []) : OWorld × Circ :=
+  transform cfg.copyRev w arg (reversePlan arg.length meas)
 
 /-- `to_chain_structure`: what it emits depends on the gates; only the final copy is modelled -/
 def toChain (cfg : Cfg) (w : OWorld) (arg : Circ) (plan : List Item) : OWorld × Circ :=
